@@ -48,7 +48,7 @@ def nontrivial(r):
 
 def run(ctx):
     return common.conductor_run(
-        ctx, "C07", FAM, common.project_full, monitors.c07, features, nontrivial, 300, 6000,
+        ctx, "C07", FAM, common.project_full, monitors.c07, features, nontrivial, 700, 6000,
         rule="generated definitions with joins (all / n, 25% of the count joins below the inbound count), branches that "
              "fail, are remediated or never transition into the join, random arrival orders; non-trivial = a join ran or "
              "stayed pending")
